@@ -82,12 +82,17 @@ def short_table_of(f, R, src):
         if isinstance(n, ast.Assign) and isinstance(n.targets[0], ast.Subscript) and isinstance(n.targets[0].value, ast.Name) and \
                 isinstance(n.value, ast.Name) and ast.unparse(n.targets[0].slice).endswith('.request_id'):
             t = n.value.id
-            # the closest preceding loop over src that appends to t
-            lps = [x for x in getattr(n, '_parent').body if isinstance(x, ast.For) and isinstance(x.iter, ast.Name) and x.iter.id == src
+            body = getattr(n, '_parent').body
+            # the closest preceding definition of t: an append loop over src, or (canonical form of such a loop) a comprehension over src
+            lps = [x for x in body if isinstance(x, ast.For) and isinstance(x.iter, ast.Name) and x.iter.id == src
                    and x.lineno < n.lineno and any(isinstance(c, ast.Call) and ast.unparse(c.func) == f'{t}.append' for c in ast.walk(x))]
-            later_reset = [x for x in getattr(n, '_parent').body if isinstance(x, ast.Assign) and ast.unparse(x.targets[0]) == t and
-                           lps and lps[-1].lineno < x.lineno < n.lineno]
-            if lps and not later_reset:
+            comps = [x for x in body if isinstance(x, ast.Assign) and ast.unparse(x.targets[0]) == t and isinstance(x.value, ast.ListComp) and
+                     len(x.value.generators) == 1 and isinstance(x.value.generators[0].iter, ast.Name) and x.value.generators[0].iter.id == src
+                     and x.lineno < n.lineno]
+            cands = sorted(lps + comps, key=lambda x: x.lineno)
+            later_reset = [x for x in body if isinstance(x, ast.Assign) and ast.unparse(x.targets[0]) == t and
+                           cands and cands[-1].lineno < x.lineno < n.lineno and x not in comps]
+            if cands and not later_reset:
                 out.append(n.targets[0].value.id)
     return out
 
@@ -259,8 +264,8 @@ def r2_shrink(ctx):
             # a combination is dropped exactly when THIS request uses another path object in it: identity, no other filter
             scan = [n for n in lp.body if isinstance(n, ast.For)]
             ok = ok and len(scan) == 1 and mstmt(
-                f'for V_s in {cc}:\n    for V_p in V_s:\n        if {rc.params[1]}[id(V_p)].req.request_id == {rc.params[2]}.request_id:\n'
-                f'            if id(V_p) != id({rc.params[3]}):\n                {tt}.remove(V_s)\n                break', scan[0]) is not None
+                f'for V_s in {cc}:\n    for V_p in V_s:\n        if {rc.params[1]}[id(V_p)].req.request_id == {rc.params[2]}.request_id and '
+                f'id(V_p) != id({rc.params[3]}):\n            {tt}.remove(V_s)\n            break', scan[0]) is not None
     ctx.check('R2.shrink-only', site(rc), ok, key(rc, 'only-removes'), 'remove_candidate does more than remove combinations from each candidate set')
     # other mutators on candidates[...] in the main function are removes
     for c in walk_no_nested(f.node):
@@ -350,8 +355,14 @@ def r5_helper(ctx):
     comps = find('[V_e.uid for V_i, V_e in enumerate(V_p[1:-1]) if isinstance(V_e, Roadm) | isinstance(V_p[V_i], Roadm)]', g.node) + \
         find('[V_e.uid for V_i, V_e in enumerate(V_p[1:-1]) if isinstance(V_e, Roadm) or isinstance(V_p[V_i], Roadm)]', g.node)
     allc = [n for n in walk_no_nested(g.node) if isinstance(n, ast.ListComp) and 'Roadm' in ast.unparse(n)]
-    ok = len(comps) == 2 and len(allc) == 2 and all(isinstance(enclosing(n, ast.For), ast.For) and
-                                                     enclosing(n, ast.For).target.id == b['V_p'] for n, b in comps)
+    def path_var_ok(n, b):
+        lp = enclosing(n, ast.For)
+        outer = enclosing(n, ast.ListComp)
+        if outer is not None and outer.elt is n and len(outer.generators) == 1 and isinstance(outer.generators[0].target, ast.Name):
+            return outer.generators[0].target.id == b['V_p']
+        return lp is not None and isinstance(lp.target, ast.Name) and lp.target.id == b['V_p']
+    allc = [n for n in allc if not any(isinstance(x, ast.ListComp) and x is not n and 'Roadm' in ast.unparse(x) for x in ast.walk(n))]
+    ok = len(comps) == 2 and len(allc) == 2 and all(path_var_ok(n, b) for n, b in comps)
     ctx.check('R5.helper', f'{site(g)} short lists', ok, key(g, 'short-lists'),
               'the per-path short lists (direct and reversed) are not built the same way: every ROADM and the element following a ROADM')
     ctx.need('R5.helper', 2)
@@ -417,8 +428,10 @@ def r8_inputs(ctx):
                 c.args and isinstance(c.args[0], ast.Call) and getattr(c.args[0].func, 'id', '') == 'Disjunction']
         ok = len(apps) == 1 and getattr(stmt_of(f, apps[0]), '_parent', None) is lp and \
             not any(isinstance(x, (ast.Continue, ast.Break)) for x in ast.walk(lp))
-        ids = [n for n in ast.walk(lp) if isinstance(n, ast.Assign) and "'disjunctions_req'" in ast.unparse(n.targets[0])]
-        ok = ok and len(ids) == 1 and ast.unparse(ids[0].value).endswith("['svec']['request-id-number']")
+        ids = [v for d in ast.walk(lp) if isinstance(d, ast.Dict) for k, v in zip(d.keys, d.values)
+               if isinstance(k, ast.Constant) and k.value == 'disjunctions_req'] + \
+              [n.value for n in ast.walk(lp) if isinstance(n, ast.Assign) and "'disjunctions_req'" in ast.unparse(n.targets[0])]
+        ok = ok and len(ids) == 1 and ast.unparse(ids[0]).endswith("['svec']['request-id-number']")
     ctx.check('R8.every-group', site(f), ok, key(f, 'every-group'),
               'not every synchronization entry of the request file becomes a disjunction group (with its request-id-number list): the '
               'requests of a dropped group would be routed independently and may share links')
